@@ -332,7 +332,7 @@ pub fn gen_png_opts(dna: &mut Dna, payload_len: usize, edge_cases: bool) -> PngO
         // more than 65535 chunks only rarely: a run the scanner rejects is re-parsed from every
         // chunk, which is quadratic in the chunk count
         let huge = dna.chance(15);
-        let max_chunks = if huge { 70_000 } else { 1_500 };
+        let max_chunks = if huge { 70_000 } else { 400 };
         let u = u.max(payload_len / max_chunks + 1);
         let n = payload_len / u;
         cuts = vec![u; n];
